@@ -162,7 +162,7 @@ theorem saveSubBlock_chainSame : ∀ (fuel : Nat) (s : State) (id : Nat), ChainS
       · exact ChainSame.refl st
       · rename_i ob _
         split
-        · exact saveBlock_chainSame st ob
+        · exact ChainSame.trans (saveBlock_chainSame st ob) (orphanDelete_chainSame _ _)
         · exact ChainSame.trans (saveBlock_chainSame st ob) (saveSubBlock_chainSame fuel _ o)
 
 /-- nobody waits for `id`: `saveSubBlock` does nothing -/
